@@ -78,6 +78,7 @@ pub fn random(r: &mut Rng, name: &'static str) -> ProjDef {
             d.extent = (25.0, 85.0);
         }
         "btmerc" => {
+            d.lat_0 = *r.pick(&[None, Some(0.0), Some(49.0), Some(-33.0)]);
             d.extent = (2.5, 80.0);
         }
         "utm" | "butm" => {
